@@ -64,3 +64,9 @@ CHECKS["C18"] = (
     "Held on the schedules observed: bounded-exhaustive sequential SessionCache histories (maxEntries 2-3, length <=6/7) and random ones against the must-hit/must-miss model with a virtual clock; systematic schedules (preemption bound <=2, 3 in thorough) of 2-3 threads x 1-3 operations on a shared SessionCache, RSA key (every result == pow(m,d,n), blinding invariant under the lock) and VerifierDB (in-memory and dbm.dumb) with linearizability checks; stress with 4-16 real threads.",
     "Preemption at line granularity (bytecode-level races inside one line only by stress); pure-python RSA; dbm.dumb back end forced for the on-disk DB.",
     "DESIGN.md section 3, C18")
+CHECKS["C07"] = (
+    "exploration",
+    "runtime monitoring: differential interop oracle against OpenSSL 3.0 (stdlib ssl over in-memory BIOs) in both role assignments",
+    "Held on the executions observed: every mutually supported (version TLS 1.0-1.3, cipher suite, server key type, group) cell with client auth, ALPN, EMS/EtM off, HelloRetryRequest, user record sizes and session-ID / ticket / TLS 1.3 ticket resumption in both roles: handshakes complete, both sides report the same version, suite id, ALPN, resumption status and certificates, boundary-size payloads arrive intact both ways, close_notify is exchanged cleanly; cells with an empty intersection fail.",
+    "Limited to what Python 3.12's ssl exposes of OpenSSL 3.0 (no SSLv3/RC4/3DES/SRP/TLS1.3-CCM/record_size_limit/heartbeat/NPN/KeyUpdate/external PSK; DSA not configurable); TLS 1.3 suites forced from the tlslite side.",
+    "DESIGN.md section 3, C07")
